@@ -1,6 +1,7 @@
 //! Reference SM3 (GB/T 32905-2016), written from the standard's text.
 //! Streaming, word oriented; shares nothing with gm-sm3.
 
+#[derive(Clone)]
 pub struct Sm3 {
     v: [u32; 8],
     buf: [u8; 64],
